@@ -1,4 +1,5 @@
 from vf.props.common import *
+from vf import planenv
 EXPLANATION = ('cbmc with unwinding assertions over the real loops: _soxr_process / stage_process of cr.c over abstract stages that meet '
                'the progress contract (each loop iteration appends output, so the trip count is bounded by the request; after '
                'end-of-input everything owed up to the request is made available: drain), the soxr_output pull loop of soxr.c with any '
@@ -18,4 +19,6 @@ def obligations(tier):
     obls += [plan_obl(0), plan_obl(1, 0)]      # planner pieces of cr.c (set_dft_length / dft_stage_init / validation prefix)
     obls.append(init_qq_obl())      # real _soxr_init for the quick recipe: cubic stage inside its envelope
     obls.append(plan_obl(3))      # the halving loop of _soxr_init terminates for every finite ratio
+    obls += dft_set(tier)      # the DFT stage: block bookkeeping and phase carry of the real dft_stage_fn
+    obls += planenv.obls(tier)      # ENV-(b): plans of the real _soxr_init inside the envelope the kernel obligations assume (enumeration, labelled)
     return obls
